@@ -19,7 +19,7 @@ RULE = (
     "non-trivial = pov != 0.5 or estimator 'cor' or references not leading the channel list"
 )
 ASSUMPTIONS = [
-    "entries compared relative to (amplitude of the row channel) x (amplitude of the reference channel) with tolerance 1e-11*cond(G_ref,ref(f)) per line, cond taken after diagonal equilibration; lines with cond > 1e8 not judged",
+    "entries compared relative to (amplitude of the row channel) x (amplitude of the reference channel) with tolerance 1e-10*cond(G_ref,ref(f)) per line, cond taken after diagonal equilibration; lines with cond > 1e8 not judged",
     "fdd.SD_est is the reference for the merged matrix (decided by C13)",
 ]
 
@@ -94,7 +94,7 @@ def _compare(j, tag, Sy, ref, cond):
     if not judged.any():
         j.skip("all-lines-illconditioned")
         return
-    tol = 1e-11 * cond[judged]
+    tol = 1e-10 * cond[judged]
     worst = np.max(err[:, :, judged] / tol[None, None, :])
     if (~judged).any():
         j.skip("line-cond>1e8")
